@@ -60,6 +60,15 @@ def r15(ctx):
                         dropped = f"`{R}` of `{norm(st, 60)}` is never read"
                 elif isinstance(parent(c), ast.Subscript) and isinstance(parent(c).slice, ast.Constant) and parent(c).slice.value == 1:
                     dropped = f"`{norm(parent(c), 60)}` keeps the columns only"
+                mat = c.args[0].id if c.args and isinstance(c.args[0], ast.Name) else None
+                cells = [x for x in walk_no_nested(h.node) if isinstance(x, ast.Subscript) and isinstance(x.ctx, ast.Load)
+                         and isinstance(x.value, ast.Name) and x.value.id == mat] if mat else []
+                if cells and not dropped:
+                    ctx.violation("R15a", h.file, h.short, cells[0], "reported weights are the caller's",
+                                  f"`{norm(cells[0], 50)}` in {h.short} reads a weight back from the array handed to the solver: what is reported "
+                                  f"with the matching has gone through that array's dtype (2**63+1 comes back as a float, True as 1) instead of "
+                                  f"being the value the caller supplied")
+                    return
                 if dropped:
                     ctx.violation("R15a", h.file, h.short, st, "solver result kept whole",
                                   f"{dropped}: the solver's row indices are thrown away; when there are more rows than columns the solver skips "
@@ -88,6 +97,16 @@ def r15(ctx):
            and "None" in ast.unparse(s_.value)]
     table_name = dotted(tab[0].targets[0] if isinstance(tab[0], ast.Assign) else tab[0].target) if tab else None
     ok_arr = isinstance(arr, ast.Call) and (call_name(arr) or "").endswith("array") and WV is not None and WV == table_name and DV is not None
+    # the table the result reads is the one the edge loop filled: the name is bound once (cells are stored into, the name is not
+    # rebound - `weights = cost_matrix.tolist()` would report weights that went through the solver's dtype)
+    if table_name:
+        rebinds = [s_ for s_ in walk_no_nested(fn) if isinstance(s_, (ast.Assign, ast.AnnAssign, ast.AugAssign)) and s_ is not tab[0]
+                   and any(isinstance(t_, ast.Name) and t_.id == table_name for t_ in (s_.targets if isinstance(s_, ast.Assign) else [s_.target]))]
+        for s_ in rebinds:
+            ctx.violation("R15a", fl, name, s_, "weight table bound once",
+                          f"`{norm(s_, 70)}` rebinds the weight table after the edge loop filled it: the weights reported with the matching are "
+                          f"no longer the ones the caller supplied (a copy that went through the solver's array has its dtype - 2**63+1 comes "
+                          f"back as a float, True as 1)")
     # sentinel / flag / edge-type names
     SV = HV = ET = None
     for s_ in walk_no_nested(fn):
